@@ -185,8 +185,16 @@ pub fn verify_simple(bytes: &[u8], noise: &[(u8, bool)], v: &mut Verdict, execs:
                     let mut it = rd.pointcloud_simple(pc).map_err(|e| format!("cloud {ci}: pointcloud_simple failed: {e}"))?;
                     set_opts(&mut it, o, &noise, bits % 6);
                     *execs += 1;
+                    // some iterations change every switch part way: from that call on the new settings apply
+                    let switch_at = if bits % 5 == 0 && !raw.points.is_empty() { Some((bits as usize * 7 + noise.len()) % (raw.points.len() + 1)) } else { None };
+                    let mut o = o;
                     let mut k = 0usize;
                     loop {
+                        if switch_at == Some(k) {
+                            o = Opts::from_bits(bits ^ 63);
+                            set_opts(&mut it, o, &[], (bits + 1) % 6);
+                            v.nt("options_changed_during_the_iteration");
+                        }
                         let item = it.next();
                         if k == raw.points.len() {
                             match item {
@@ -228,7 +236,7 @@ impl Check for C05 {
          (unit quaternions), limits (absent, integer/single/double pairs, scaled-integer and mixed kinds), invalid-state patterns incl. values \
          outside the documented sets (foreign files only), constant invalid-state records (minimum = maximum), all attribute subsets; each cloud is iterated with the simple iterator under ALL 64 \
          option vectors (8 sampled vectors for clouds with > 400 points), each vector reached through a generated history of setter calls \
-         (noise calls first, then every switch once in a rotated order). Oracle: same number of points in the same order as the raw iterator; each \
+         (noise calls first, then every switch once in a rotated order); every fifth vector is replaced by its complement after a generated number of points - the points delivered from then on follow the new settings. Oracle: same number of points in the same order as the raw iterator; each \
          point equals the reference model of the documented function of the raw values (validity variants exactly, scaled integers raw*scale+offset, \
          row/column default -1, colour/intensity presence, conversions and pose within 1e-9 relative, normalisation per the C13 formula); Err only \
          at the index of an out-of-set invalid-state value, after which the iteration continues with the following points and ends after the last one. Non-trivial: cloud with a data packet that completes no point, spherical-only cloud, \
